@@ -55,12 +55,6 @@ Section FullRows.
   Lemma AllVal_nil : AllVal [].
   Proof. constructor; [reflexivity | intros c ch []]. Qed.
 
-  Lemma AllVal_unmixed l : AllVal l -> Unmixed l.
-  Proof.
-    revert l. fix IH 2. intros l H. destruct H as [l H1 H2]. constructor; [now right|].
-    intros c ch Hin. apply IH. exact (H2 c ch Hin).
-  Qed.
-
   Lemma tset_allval l c t : WF l -> AllVal l -> is_all c = false -> (forall ch, t = Node ch -> AllVal ch) -> AllVal (tset l c t).
   Proof.
     intros W A Hc Ht. inversion A as [? A1 A2]; subst. inversion W as [? N _]; subst. constructor.
@@ -93,7 +87,9 @@ Section FullRows.
     pose proof (Hb k (or_introl eq_refl)) as Bk. unfold bound_at in Bk. destruct (aget a k) as [v|]; [|discriminate].
     assert (D : forall t, In (r, o) (match t with Leaf o' => [(res, o')] | Node ch => retrieve_at ks' a ch res end) -> r = res).
     { intros [o'|ch] Hd; [destruct Hd as [Hd|[]]; now injection Hd as <- _|]. eapply IH; [|exact Hd]. intros k' Hk'. apply Hb. now right. }
-    destruct (tget l (CVal v)) as [t|]; [now apply (D t)|]. destruct (tget l CAll) as [w|]; [now apply (D w) | destruct H].
+    apply in_app_iff in H as [H|H].
+    - destruct (tget l (CVal v)) as [t|]; [now apply (D t) | destruct H].
+    - destruct (tget l CAll) as [w|]; [now apply (D w) | destruct H].
   Qed.
 
   (* ---------- small facts about bindings ---------- *)
@@ -253,7 +249,7 @@ Section FullRows.
     - intros ([b ob] & E & H). cbn [fst snd] in E. injection E as <- <-. unfold answers in H. apply filter_In in H as [Hb C]. cbn [fst] in C.
       pose proof (ONLY b ob Hb C) as E. injection E as -> ->.
       assert (C' : pcompat_strict ks (pattern ks a) L = true) by now rewrite pcompat_strict_pattern.
-      destruct (retrieve_at_complete ks L (root (impl s)) L (pattern ks a) o W (AllVal_unmixed _ A) Sh (Q a o Hao) C') as (r' & Hr').
+      destruct (retrieve_at_complete ks L (root (impl s)) L (pattern ks a) o W Sh (Q a o Hao) C') as (r' & Hr').
       pose proof (retrieve_at_full ks L _ _ _ _ BL Hr') as ->. exists (L, o). cbn [fst snd]. split; [|exact Hr'].
       f_equal. apply pattern_ext. exact AG.
   Qed.
